@@ -281,6 +281,20 @@ pub fn run(ctx: &Ctx) {
         if cx == 0 {
             let plain = in_context(0, &id_bytes(&id, Form::Plain, &mut rng), &[]);
             let local = in_context(0, &id_bytes(&id, Form::Local, &mut rng), &[]);
+            // two node-local forms of the same identifier (other hash, other inner encoding) are one identifier too
+            let local2 = in_context(0, &id_bytes(&id, Form::Local, &mut rng), &[]);
+            if let (Ok(b1), Ok(b2)) = (erltf::decode(&local), erltf::decode(&local2)) {
+                let same = b1 == b2 && b2 == b1 && hash_of(&b1) == hash_of(&b2) && b1.cmp(&b2) == std::cmp::Ordering::Equal;
+                let wrapped = OwnedTerm::Tuple(vec![b1.clone(), OwnedTerm::Nil]) == OwnedTerm::Tuple(vec![b2.clone(), OwnedTerm::Nil]);
+                let set: std::collections::HashSet<OwnedTerm> = [b1.clone(), b2.clone()].into_iter().collect();
+                if !same || !wrapped || set.len() != 1 {
+                    ctx.viol(
+                        &format!("C10:forms-not-identified:two-local-forms:{}", ["pid", "port", "ref"][kind]),
+                        "two node-local forms of one identifier (other hash / other inner encoding) are not ==/hash-equal/cmp-Equal",
+                        wit(json!({"eq": b1 == b2, "hash_eq": hash_of(&b1) == hash_of(&b2), "cmp": format!("{:?}", b1.cmp(&b2)), "inside_tuple_eq": wrapped, "hashset_len": set.len(), "other_form": hex_cap(&local2, 80)})),
+                    );
+                }
+            }
             if let (Ok(a), Ok(b)) = (erltf::decode(&plain), erltf::decode(&local)) {
                 let same = a == b && hash_of(&a) == hash_of(&b) && a.cmp(&b) == std::cmp::Ordering::Equal;
                 let bsame = BorrowedTerm::from(&a).cmp(&BorrowedTerm::from(&b)) == std::cmp::Ordering::Equal;
